@@ -679,6 +679,65 @@ func jsonRoundTripObligations(w *World, c *Check, P string) {
 	}
 }
 
+// jsonNestedRoundTrip: the two value types that live inside another document (an actor's endpoints, an
+// object's source): their own writer table against the reader that fetches them from the parent.
+func jsonNestedRoundTrip(w *World, c *Check, P string) {
+	for _, tn := range []string{"Endpoints", "Source"} {
+		tn := tn
+		grp := P + "/" + tn + ".JSONRoundTrip"
+		guard(c, grp, func() {
+			ex, st, sv, tbl := jsonWriterTable(w, tn)
+			doc := Var("doc", jvSort)
+			parent := Var("parent", jvSort)
+			ex.assume(Neq(doc, jvNil))
+			ex.assume(Neq(parent, jvNil))
+			for _, h := range []string{"JSONWriteProp", "JSONWriteItemProp", "JSONWriteItemCollectionProp"} {
+				delete(ex.hooks, h)
+			}
+			var reads []string
+			installJSONReaderContracts(ex, w, tbl, doc, &reads)
+			installJSONDocument(ex, tbl, doc)
+			var got *StructVal
+			var fns []string
+			T := w.Type(tn)
+			switch tn {
+			case "Endpoints":
+				delete(ex.hooks, "JSONGetActorEndpoints")
+				ex.knownTerms[jGet(parent, StrLit("endpoints"))] = doc
+				p := ex.Call(st, w.Func("JSONGetActorEndpoints"), []Value{parent, StrLit("endpoints")}, nil).(*PtrVal)
+				got = ex.load(st, p, T, 0).(*StructVal)
+				fns = []string{"(Endpoints).MarshalJSON", "JSONGetActorEndpoints"}
+			case "Source":
+				delete(ex.hooks, "GetAPSource")
+				ex.knownTerms[jGet(parent, StrLit("source"))] = doc
+				got = ex.Call(st, w.Func("GetAPSource"), []Value{parent}, nil).(*StructVal)
+				fns = []string{"(Source).MarshalJSON", "GetAPSource"}
+			}
+			common := append([]*Term{ex.NoPanic()}, ex.assumes...)
+			stT := T.Underlying().(*types.Struct)
+			for k := 0; k < stT.NumFields(); k++ {
+				// well-formed: a media type is not wrapped in double quotes (the reader trims them)
+				if mt, ok := sv.F[k].(*Term); ok && mt.S == SStr && typeName(stT.Field(k).Type()) == "MimeType" {
+					common = append(common, Eq(App("strings.Trim", SStr, mt, StrLit("\"")), mt))
+				}
+			}
+			for k := 0; k < stT.NumFields(); k++ {
+				f := stT.Field(k)
+				c.Add(&Obligation{Name: fmt.Sprintf("%s/field=%s", grp, f.Name()), Group: grp, Common: common,
+					Goal: ex.jsonNormEq(st, got.F[k], sv.F[k], f.Type()), Pos: fns[1], Funcs: fns, Replay: jsonReplay("Actor", "", nil)})
+			}
+			for i, p := range ex.panics {
+				c.Add(&Obligation{Name: fmt.Sprintf("%s/nopanic/%s@%s#%d", grp, p.Kind, p.Fn, i), Group: grp + "/nopanic", Common: ex.assumes, Goal: Not(p.C), Pos: p.Pos, Funcs: fns})
+			}
+			var desc []string
+			for _, m := range tbl.Members {
+				desc = append(desc, fmt.Sprintf("%s:%s", m.Name, m.Kind))
+			}
+			c.Notes = appendUnique(c.Notes, fmt.Sprintf("%s writes %v; reads %v", tn, desc, reads))
+		})
+	}
+}
+
 func jsonReplay(tn, field string, ft types.Type) func(map[string]string) string {
 	return func(map[string]string) string {
 		return fmt.Sprintf(`package activitypub
@@ -805,6 +864,7 @@ func checkC01(w *World, c *Check) {
 	c.Trusted = append(c.Trusted, jsonTrusted...)
 	c.Assume = append(c.Assume, jsonAssume...)
 	jsonRoundTripObligations(w, c, "C01")
+	jsonNestedRoundTrip(w, c, "C01")
 	jsonLeafItemReaders(w, c, "C01")
 	jsonKeptObligations(w, c, "C01")
 	// top-level and nested items: the dispatch of the item decoder (same obligations as C07's JSON part)
